@@ -47,7 +47,9 @@ Inductive req :=
 | RCreate (n k b : string)           (* POST   /objects        name kind body *)
 | RUpdate (n k b : string)           (* PUT    /objects/{name} *)
 | RDelete (n : string)               (* DELETE /objects/{name} *)
-| RGet (n : string).                 (* GET    /objects/{name}: NOT under the lock *)
+| RGet (n : string)                  (* GET    /objects/{name}: NOT under the lock *)
+| RCustom.                           (* any request of the custom-data API (/customdatakinds, /customdata/{kind}):
+                                        never takes the cluster lock, never touches /config/version or an object *)
 
 Inductive result :=
 | ROk (code : Z) (v : Z)             (* successful mutation, X-Config-Version v *)
@@ -103,6 +105,7 @@ Definition spec_result (st : store) (r : req) : result :=
   match r with
   | RNoop => RNoopDone
   | RGet n => RRead (alookup n (fst st))
+  | RCustom => RNoopDone
   | _ => match precheck (fst st) r with
          | Some c => RFail c
          | None => ROk (code_of r) (snd st + 1)
@@ -183,6 +186,7 @@ Definition finish (s : state) (t : tid) (rq : req) (r : result) : state :=
 Definition cs_step (s : state) (t : tid) (rq : req) (k : nat) : option state :=
   match rq with
   | RGet _ => None
+  | RCustom => None
   | RNoop => match k with O => Some (set_pc s t (PEnd RNoopDone)) | _ => None end
   | _ =>
     match k with
@@ -203,7 +207,8 @@ Definition cs_step (s : state) (t : tid) (rq : req) (k : nat) : option state :=
     end
   end.
 
-Definition is_get (r : req) : bool := match r with RGet _ => true | _ => false end.
+(** requests that run without the cluster lock *)
+Definition is_get (r : req) : bool := match r with RGet _ | RCustom => true | _ => false end.
 
 Definition step (q : quirks) (cfg : tid -> thr) (s : state) (t : tid) (l : label) : option state :=
   let th := cfg t in
@@ -255,6 +260,7 @@ Definition step (q : quirks) (cfg : tid -> thr) (s : state) (t : tid) (l : label
   | LGet, PIdle =>
       match t_req th with
       | RGet n => Some (set_pc s t (PDone (RRead (alookup n (objs s)))))
+      | RCustom => Some (set_pc s t (PDone RNoopDone))   (* identity on objects and version *)
       | _ => None
       end
   | _, _ => None
@@ -334,5 +340,6 @@ Definition cs_len (st : store) (r : req) : nat :=
   match r with
   | RNoop => 1%nat
   | RGet _ => 0%nat
+  | RCustom => 0%nat
   | _ => match precheck (fst st) r with Some _ => 1%nat | None => 4%nat end
   end.
